@@ -77,6 +77,7 @@ pub fn dispatch(which: &str, v: &Value, case: &Value) -> Value {
         "c10_atomic" => c10_atomic(v),
         "c18_perm" => c18_perm(v),
         "c18_sep" => c18_sep(v),
+        "c18_scriptlet_gate" => c18_scriptlet_gate(v),
         "c18_redirect_gate" => c18_redirect_gate(v),
         "c01_tok" => c01_tok(v),
         "c01_star" => c01_star(v),
@@ -181,6 +182,34 @@ fn c18_perm(v: &Value) -> Value {
     let u1 = PermissionMask::from_bits(r | f);
     let union_ok = acc.is_injectable_by(u1) && u1.is_injectable_by(acc) && (PermissionMask::from_bits(r) | PermissionMask::from_bits(f)).is_injectable_by(u1) && u1.is_injectable_by(PermissionMask::from_bits(r) | PermissionMask::from_bits(f));
     json!({"reproduced": got != want || !union_ok, "got": got, "want": want, "union_ok": union_ok})
+}
+/// public API: a `+js(r)` rule from a list granted `granted`, resource `r.js` requiring `required`; once as the
+/// scriptlet itself and once as a dependency of an unprivileged scriptlet
+fn c18_scriptlet_gate(v: &Value) -> Value {
+    use adblock::lists::ParseOptions;
+    use adblock::resources::{MimeType, Resource, ResourceType};
+    let (required, granted, found) = (u(&v["required"]) as u8, u(&v["granted"]) as u8, b(&v["found"]));
+    let subset = required & !granted == 0;
+    let run = |rule: &str| -> String {
+        let mut fs = adblock::FilterSet::new(true);
+        fs.add_filters([rule], ParseOptions { permissions: PermissionMask::from_bits(granted), ..Default::default() });
+        let mut e = Engine::from_filter_set(fs, true);
+        let mut rs = vec![];
+        if found {
+            // function privileged() { /*PRIV*/ }
+            rs.push(Resource { name: "privileged.js".into(), aliases: vec![], kind: ResourceType::Mime(MimeType::ApplicationJavascript), content: "ZnVuY3Rpb24gcHJpdmlsZWdlZCgpIHsgLypQUklWKi8gfQ==".into(), dependencies: vec![], permission: PermissionMask::from_bits(required) });
+            // function helper() { /*HELPER*/ }
+            rs.push(Resource { name: "helper.fn".into(), aliases: vec![], kind: ResourceType::Mime(MimeType::FnJavascript), content: "ZnVuY3Rpb24gaGVscGVyKCkgeyAvKkhFTFBFUiovIH0=".into(), dependencies: vec![], permission: PermissionMask::from_bits(required) });
+            // function outer() { /*OUTER*/ }
+            rs.push(Resource { name: "outer.js".into(), aliases: vec![], kind: ResourceType::Mime(MimeType::ApplicationJavascript), content: "ZnVuY3Rpb24gb3V0ZXIoKSB7IC8qT1VURVIqLyB9".into(), dependencies: vec!["helper.fn".into()], permission: PermissionMask::default() });
+        }
+        e.use_resources(rs);
+        e.url_cosmetic_resources("https://example.com/").injected_script
+    };
+    let direct = run("example.com##+js(privileged)").contains("/*PRIV*/");
+    let dep = run("example.com##+js(outer)").contains("/*HELPER*/");
+    let want = found && subset;
+    json!({"reproduced": direct != want || dep != want, "direct": direct, "via_dependency": dep, "want": want, "required": required, "granted": granted, "found": found})
 }
 /// public API: a storage holding one resource of the given kind and permission, asked for as a redirect
 fn c18_redirect_gate(v: &Value) -> Value {
